@@ -4,6 +4,7 @@ package checks
 
 import (
 	"context"
+	"encoding/json"
 	"fmt"
 	"reflect"
 	"sort"
@@ -444,6 +445,10 @@ func runC08(r *ev.Run) {
 			}
 			c08API(r, e, content, singles, ci)
 		}
+		// Where(model) / Get(model): every index configuration
+		for _, e := range envs {
+			c08WhereModel(r, e, content, ci)
+		}
 	})
 	r.Set("distinct_nontrivial", r.DistinctCount("nontrivial"))
 	r.Set("impl_error_class_list", r.DistinctKeys("impl_error_classes"))
@@ -667,6 +672,194 @@ func c08API(r *ev.Run, e *c08Env, content map[string]rm.Row, singles []rm.Cond, 
 							if setStr(deleted) != setStr(gotAll) {
 								r.Violation("c08.api.delete-ops."+condClass(e.ref, []rm.Cond{c1, c2}), fmt.Sprintf("[%s] rows %s: WhereAll(%s ; %s): List reports %s but the generated delete removed %s", e.cfg.name, contentStr(content), condStr([]rm.Cond{c1}), condStr([]rm.Cond{c2}), setStr(gotAll), setStr(deleted)), map[string]interface{}{"ops": ops})
 							}
+						}
+					}
+				}
+			}()
+		}
+	}
+}
+
+// c08IndexSpecs: the table's index specs in look-up order (schema indexes, then client indexes); clientFrom = position of the first client index.
+func (e *c08Env) indexSpecs() (specs [][]model.ColumnKey, clientFrom int) {
+	var si [][]string
+	if err := json.Unmarshal([]byte(e.cfg.schema), &si); err != nil {
+		panic(err)
+	}
+	for _, cols := range si {
+		var spec []model.ColumnKey
+		for _, c := range cols {
+			spec = append(spec, model.ColumnKey{Column: c})
+		}
+		specs = append(specs, spec)
+	}
+	clientFrom = len(specs)
+	for _, ci := range e.cfg.client {
+		specs = append(specs, ci.Columns)
+	}
+	return
+}
+
+// c08WhereModel: Where(model) = the row with the model's _uuid when the cache has it, else the rows of the first index (schema
+// indexes in schema order, then client indexes in their order) that holds a row agreeing with the model on the index columns;
+// Get(model) = the same over _uuid and schema indexes only; generated operations hit exactly the rows List reports.
+func c08WhereModel(r *ev.Run, e *c08Env, content map[string]rm.Row, ci int) {
+	tc := e.newCache(content)
+	api := client.VerifNewAPI(tc)
+	t := e.ref.Tables["T"]
+	specs, clientFrom := e.indexSpecs()
+	idxVal := func(row rm.Row, ck model.ColumnKey) string {
+		c := t.Cols[ck.Column]
+		v, ok := row[ck.Column]
+		if !ok {
+			v = c.Default()
+		}
+		if ck.Key != nil {
+			k := rm.S(fmt.Sprint(ck.Key))
+			if x, has := v.Map[k]; has {
+				return x.String()
+			}
+			return (&rm.Col{KeyT: c.ValT, Min: 1, Max: 1}).Default().String()
+		}
+		return v.String()
+	}
+	expect := func(uuid string, fields rm.Row, useClient bool) map[string]bool {
+		out := map[string]bool{}
+		if _, ok := content[uuid]; ok && uuid != "" {
+			out[uuid] = true
+			return out
+		}
+		for si, spec := range specs {
+			if si >= clientFrom && !useClient {
+				break
+			}
+			for u, row := range content {
+				same := true
+				for _, ck := range spec {
+					if idxVal(row, ck) != idxVal(fields, ck) {
+						same = false
+					}
+				}
+				if same {
+					out[u] = true
+				}
+			}
+			if len(out) > 0 {
+				break
+			}
+		}
+		return out
+	}
+	list := func(ca client.ConditionalAPI) (map[string]bool, error) {
+		lst := reflect.New(reflect.SliceOf(e.dbs.Types["T"]))
+		if err := ca.List(context.Background(), lst.Interface()); err != nil {
+			return nil, err
+		}
+		out := map[string]bool{}
+		for k := 0; k < lst.Elem().Len(); k++ {
+			out[schemas.Get(lst.Elem().Index(k).Interface(), "_uuid").(string)] = true
+		}
+		return out, nil
+	}
+	uuids := []string{"", uu("8", 9)}
+	for u := range content {
+		uuids = append(uuids, u)
+	}
+	sort.Strings(uuids)
+	universe := append([]rm.Row{{}}, c08Rows()...) // {} = every field at its default
+	for ui, uuid := range uuids {
+		for fi, fields := range universe {
+			r.Add("api_evaluations", 1)
+			r.Add("where_model_cases", 1)
+			name := fmt.Sprintf("_uuid=%s fields=universe-row-%d", short(uuid), fi-1)
+			if fi == 0 {
+				name = fmt.Sprintf("_uuid=%s fields=defaults", short(uuid))
+			}
+			if uuid == "" {
+				name = strings.Replace(name, "_uuid= ", "no _uuid, ", 1)
+			}
+			kind := "uuid-cached"
+			if _, ok := content[uuid]; !ok {
+				kind = "uuid-unknown"
+				if uuid == "" {
+					kind = "no-uuid"
+				}
+			}
+			func() {
+				defer func() {
+					if p := recover(); p != nil {
+						r.Violation("c08.where-model.panic."+cfgKind(e.cfg), fmt.Sprintf("[%s] rows %s: Where(model %s) panicked: %v", e.cfg.name, contentStr(content), name, p), nil)
+					}
+				}()
+				m := e.mkModel(uuid, fields)
+				want := expect(uuid, fields, true)
+				got, err := list(api.Where(m))
+				if err != nil {
+					r.Violation("c08.where-model.error."+kind+"."+cfgKind(e.cfg), fmt.Sprintf("[%s] rows %s: Where(model %s).List: %v", e.cfg.name, contentStr(content), name, err), nil)
+					return
+				}
+				if setStr(got) != setStr(want) {
+					r.Violation("c08.where-model."+kind+"."+cfgKind(e.cfg), fmt.Sprintf("[%s] rows %s: Where(model %s).List = %s, the first usable index of the model gives %s", e.cfg.name, contentStr(content), name, setStr(got), setStr(want)),
+						map[string]interface{}{"index_config": e.cfg.name, "content": contentStr(content), "model": name, "got": setStr(got), "want": setStr(want)})
+					return
+				}
+				if len(want) > 0 && len(want) < len(content) {
+					r.Distinct("nontrivial", "where-model/"+e.cfg.name+"/"+name+"/"+contentStr(content))
+				}
+				// Get: _uuid and schema indexes only
+				wantGet := expect(uuid, fields, false)
+				gm := e.mkModel(uuid, fields)
+				gerr := api.Get(context.Background(), gm)
+				gotU := ""
+				if gerr == nil {
+					gotU = schemas.Get(gm, "_uuid").(string)
+				}
+				switch {
+				case len(wantGet) == 0 && gerr == nil:
+					r.Violation("c08.get-model.found-nothing-expected."+kind+"."+cfgKind(e.cfg), fmt.Sprintf("[%s] rows %s: Get(model %s) returns row %s, no _uuid or schema index leads to a row", e.cfg.name, contentStr(content), name, short(gotU)), nil)
+				case len(wantGet) > 0 && (gerr != nil || !wantGet[gotU]):
+					r.Violation("c08.get-model."+kind+"."+cfgKind(e.cfg), fmt.Sprintf("[%s] rows %s: Get(model %s) returns %s (%v), expected one of %s", e.cfg.name, contentStr(content), name, short(gotU), gerr, setStr(wantGet)), nil)
+				case gerr == nil && sys.FromModel(t, gm).String() != content[gotU].String():
+					r.Violation("c08.get-model.content."+kind+"."+cfgKind(e.cfg), fmt.Sprintf("[%s] rows %s: Get(model %s) fills the model with %s, the row is %s", e.cfg.name, contentStr(content), name, sys.FromModel(t, gm), content[gotU]), nil)
+				}
+				// the generated delete removes exactly the rows List reported (when the cache had a match)
+				if (ui+fi+ci)%2 == 0 && len(got) > 0 {
+					ops, oerr := api.Where(e.mkModel(uuid, fields)).Delete()
+					if oerr != nil {
+						r.Violation("c08.where-model.delete-error."+kind+"."+cfgKind(e.cfg), fmt.Sprintf("[%s] rows %s: Where(model %s).Delete: %v", e.cfg.name, contentStr(content), name, oerr), nil)
+						return
+					}
+					s := sys.New(e.dbs)
+					var load []rm.Op
+					var us []string
+					for u := range content {
+						us = append(us, u)
+					}
+					sort.Strings(us)
+					for _, u := range us {
+						load = append(load, rm.Op{Op: "insert", Table: "T", UUID: u, Row: content[u]})
+					}
+					if res, err := s.TransactRef(load); err != nil || len(res) != len(load) {
+						panic(fmt.Sprintf("load failed: %v %v", res, err))
+					}
+					res, terr := s.Transact(ops)
+					okRes := terr == nil
+					for _, x := range res {
+						if x.Error != "" {
+							okRes = false
+						}
+					}
+					if okRes {
+						left := s.State().T["T"]
+						deleted := map[string]bool{}
+						for u := range content {
+							if _, ok := left[u]; !ok {
+								deleted[u] = true
+							}
+						}
+						r.Add("api_generated_ops_executed", 1)
+						if setStr(deleted) != setStr(got) {
+							r.Violation("c08.where-model.delete-ops."+kind+"."+cfgKind(e.cfg), fmt.Sprintf("[%s] rows %s: Where(model %s): List reports %s but the generated delete removed %s", e.cfg.name, contentStr(content), name, setStr(got), setStr(deleted)), map[string]interface{}{"ops": ops})
 						}
 					}
 				}
